@@ -32,7 +32,7 @@ type C09Case struct {
 
 var c09Kinds = []string{"flip-seal", "flip-last-block", "flip-last-key", "flip-last-sig", "seal-from-donor", "seal-to-random-secret",
 	"seal-by-attacker", "seal-over-without-signature", "drop-last-block", "swap-last-two", "append-attacker-block",
-	"seal-to-64-byte-secret-with-public-key", "seal-extended", "seal-shortened", "seal-doubled"}
+	"seal-to-64-byte-secret-with-public-key", "seal-extended", "seal-shortened", "seal-doubled", "seal-removed", "seal-removed-last-block-dropped"}
 
 func sealMutation(c C09Case, sealed, donor *wire.Biscuit) *wire.Biscuit {
 	env := sealed.Clone()
@@ -64,6 +64,14 @@ func sealMutation(c C09Case, sealed, donor *wire.Biscuit) *wire.Biscuit {
 	case "seal-shortened":
 		if len(env.Proof.Final) > 0 {
 			env.Proof.Final = env.Proof.Final[:len(env.Proof.Final)-1-int(c.Mut.N%3)]
+		}
+	case "seal-removed":
+		// the proof message stays, its content (the seal) is gone
+		env.Proof = wire.Proof{}
+	case "seal-removed-last-block-dropped":
+		env.Proof = wire.Proof{}
+		if len(env.Blocks) > 0 {
+			env.Blocks = env.Blocks[:len(env.Blocks)-1]
 		}
 	case "seal-doubled":
 		env.Proof.Final = append(append([]byte{}, env.Proof.Final...), env.Proof.Final...)
